@@ -81,6 +81,23 @@ pub fn eval(ctx: &Ctx, case: &Case) {
                 return;
             };
             ctx.trace();
+            // the conforming ciphertext for the offered nonce itself must decrypt, whatever the library's encryptor did with it
+            if tag.starts_with("nonce-with-zero-last") {
+                if let Some(rc) = sm2::encrypt_with_k(&pk_ref, &msg, &k) {
+                    let rb = rc.encode(*c1c3c2, *compressed);
+                    ctx.call();
+                    match guard(|| sk.decrypt(&rb, *compressed, model(*c1c3c2))) {
+                        Guard::Done(Ok(m)) if m == msg => {}
+                        other => ctx.violation("Sm2PrivateKey::decrypt", &format!("reference-ciphertext/{}", cls), format!("d={} k={} mlen={} -> {}", hexbig(&d), hexbig(&k), msg_len, gdbg(&other)), cj()),
+                    }
+                }
+            }
+            // a nonce the standard accepts (its key stream is not all zero) must be the one that is used
+            // (judged only when the sampler itself accepted k: it may refuse order-1, see C14)
+            if k_used != k && log.accepted.first().map(from_limbs) == Some(k.clone()) && sm2::encrypt_with_k(&pk_ref, &msg, &k).is_some() {
+                ctx.violation(site, &format!("valid-nonce-discarded/{}", cls), format!("d={} offered k={} used k={} mlen={}", hexbig(&d), hexbig(&k), hexbig(&k_used), msg_len), cj());
+                return;
+            }
             match sm2::encrypt_with_k(&pk_ref, &msg, &k_used) {
                 Some(want) => {
                     let wb = want.encode(*c1c3c2, *compressed);
@@ -209,7 +226,7 @@ pub fn replay(ctx: &Arc<Ctx>, v: &Value) {
 pub fn run(ctx: &Arc<Ctx>) {
     refmodels::selftest::run(&["sm3", "sm2"]).unwrap_or_else(|e| ctx.machinery_error(format!("reference self-test failed: {}", e)));
     let n = sm2::params().n.clone();
-    ctx.set_rule("every message length 1..=300 (thorough 1..=1200) x {C1C2C3,C1C3C2} x {compressed,uncompressed} x content {zero, seeded} with fixed (d,k); keys {Annex d, n-2, seeded} x nonce alphabet at lengths {1,32,33}; longer messages; KDF for every klen 1..=300 and {1024,4096,65537, 2^24+1, 2^25+2} x 2 Z values; library-with-real-RNG ciphertexts decrypted by the reference; OpenSSL DER ciphertext corpus. Per case: ciphertext = reference ciphertext byte for byte for the accepted nonce, reference decryptor recovers M, library round trip, library decrypts a reference-made ciphertext.");
+    ctx.set_rule("every message length 1..=300 (thorough 1..=1200) x {C1C2C3,C1C3C2} x {compressed,uncompressed} x content {zero, seeded} with fixed (d,k); keys {Annex d, n-2, seeded} x nonce alphabet at lengths {1,32,33}; crafted nonces whose key stream is all zero (1-byte message: must be skipped) or zero only in its last partial KDF block (33 / 65 bytes: must be used); longer messages; KDF for every klen 1..=300 and {1024,4096,65537, 2^24+1, 2^25+2} x 2 Z values; library-with-real-RNG ciphertexts decrypted by the reference; OpenSSL DER ciphertext corpus. Per case: ciphertext = reference ciphertext byte for byte for the accepted nonce, reference decryptor recovers M, library round trip, library decrypts a reference-made ciphertext.");
     let ks = scalar_alphabet(&n, ctx.seed, "c05k", 1);
     let ds: Vec<(String, BigUint)> = vec![("annex".into(), hb(ANNEX_D)), ("n-2".into(), &n - 2u32), ("seed".into(), SplitMix::new(ctx.seed, "c05d").nonzero_below(&(&n - 1u32)))];
     let lmax = 300usize;
@@ -265,6 +282,36 @@ pub fn run(ctx: &Arc<Ctx>) {
             ctx.cov(&format!("crafted_all_zero_kdf_nonces_klen{}", klen), json!(found));
             if found == 0 {
                 ctx.machinery_error("no nonce with all-zero KDF output found");
+            }
+        }
+    }
+    // crafted nonces whose key stream is zero only in its LAST (partial) KDF block: |M| = 33 / 65 (thorough 34) with
+    // t[32..] = 0 / t[64..] = 0. The key stream as a whole is not zero: the nonce must be used, and the ciphertext decrypts
+    {
+        let d = hb(ANNEX_D);
+        let pk = sm2::g_mul(&d);
+        for mlen in ctx.tier.pick(vec![33usize, 65], vec![33, 65, 34]) {
+            let mut k = SplitMix::new(ctx.seed ^ mlen as u64, "c05lastblock").nonzero_below(&(&n - (BigUint::from(1u32) << 40)));
+            let mut s = sm2::mul(&k, &pk);
+            let mut found = 0;
+            let mut tries = 0u64;
+            let from = (mlen - 1) / 32 * 32;
+            while found < 2 && tries < (1 << 22) {
+                let (x2, y2) = sm2::xy_bytes(&s);
+                let t = sm3::kdf(&[&x2[..], &y2[..]].concat(), mlen);
+                if t[from..].iter().all(|b| *b == 0) && !t.iter().all(|b| *b == 0) {
+                    for (c1c3c2, compressed) in [(false, false), (true, true)] {
+                        cases.push(Case::Enc { d: ANNEX_D.into(), k: hexbig(&k), msg_len: mlen, msg_class: "seed".into(), c1c3c2, compressed, tag: "nonce-with-zero-last-kdf-block".into() });
+                    }
+                    found += 1;
+                }
+                s = sm2::add(&s, &pk);
+                k += 1u32;
+                tries += 1;
+            }
+            ctx.cov(&format!("crafted_zero_last_block_nonces_mlen{}", mlen), json!(found));
+            if found == 0 {
+                ctx.machinery_error("no nonce with a zero last KDF block found");
             }
         }
     }
